@@ -1060,6 +1060,25 @@ class CallMixin:
         sorts = []
         for (pn, pt) in params:
             sorts.append(z3.ArraySort(z3.IntSort(), sort_of(pt[1])) if pt[0] == "list" else sort_of(pt))
+        if body is None:
+            # uninterpreted: its defining axioms become hypotheses (hs.axioms) the first time it is used
+            f = z3.Function("spec!" + name, *(sorts + [sort_of(returns)]))
+            self._specrec[name] = f
+            for dep in self.reg.spec_axioms.get(name, []):
+                pass
+            from .dsl import parse_expr as _pe
+            done_ax = self.__dict__.setdefault("_spec_axioms_done", set())
+            for ax in self.reg.spec_axioms.get(name, []):
+                if ax in done_ax:
+                    continue
+                done_ax.add(ax)
+                self.assumptions_used.add("definition of spec function %s: %s" % (name, ax))
+                fr0 = Frame("<axiom %s>" % name, None, spec=True)
+                base0 = st.copy()
+                base0.pc = []
+                base0.heap_override = None
+                st.hs.axioms.append(self.eval_clause(ax, base0, frame=fr0))
+            return f
         f = z3.RecFunction("spec!" + name, *(sorts + [sort_of(returns)]))
         self._specrec[name] = f          # visible to recursive calls in the body
         from .dsl import parse_expr
